@@ -2,7 +2,7 @@
 
 ENGINES = [
     {"name": "E1-explore", "path": "vf/explore.py",
-     "serves_properties": ["C03"],
+     "serves_properties": ["C01", "C03", "C04", "C06", "C19"],
      "kind_free_text": "explicit-state breadth-first exploration of operation "
      "histories on the real dclab objects; successor = replay of history+op "
      "on a fresh SUT; states merged by a canonical form of the "
@@ -35,5 +35,82 @@ CHECKS = {
                 "polygons with off-boundary finite query points; state "
                 "merging uses Filter's private caches only for deduplication "
                 "(falls back to history=state if they disappear)",
+    },
+    "C01": {
+        "engine": "E1-explore",
+        "level": "model_checking",
+        "technique": "explicit-state BFS over writer call histories plus "
+                     "exhaustive enumeration of append compositions on the "
+                     "real RTDCWriter vs. an in-memory model",
+        "text": "Every history (depth 3 quick / 4 thorough, deviation bound "
+                "1) of {append k events to 11 feature kinds, store logs "
+                "(short/unicode/over-long), tables (recarray/dict/mixed "
+                "dtypes), metadata, re-open the writer in append/replace/"
+                "reset} and every composition of N<=7 (quick) / 12 "
+                "(thorough) events into successive appends (<=3 parts up to "
+                "N=23, 10-event and 1 MiB chunks, with and without "
+                "re-opening) is executed; the closed file is compared with "
+                "the model through raw h5py and dclab.new_dataset.",
+        "note": "one input dtype per feature; files up to 23 events; the "
+                "model re-states the documented metadata types for the keys "
+                "used; version brand stubbed to 0.62.7",
+    },
+    "C04": {
+        "engine": "E1-explore",
+        "level": "model_checking",
+        "technique": "explicit-state BFS over hierarchy edit/refresh "
+                     "histories on real RTDC_Hierarchy chains vs. a "
+                     "root-index-set model",
+        "text": "All histories (depth 3-4 quick / 4-5 thorough) of range "
+                "edits on every level (equal-sized windows selecting "
+                "different events), manual exclusions on every level, "
+                "temporary-feature assignment, root frame-rate change, each "
+                "with or without a refresh of the youngest member, on a "
+                "3-level (thorough: also 4-level) hierarchy; after every "
+                "refresh lengths, every feature kind (scalar, image, mask, "
+                "contour, trace, computed time, temporary) and the manual "
+                "arrays are compared with the model.",
+        "note": "manual exclusions / temporary features are edited only in "
+                "synchronised states; re-inclusion is explored only while "
+                "another visible exclusion remains; 6 root events",
+    },
+    "C06": {
+        "engine": "E1-explore",
+        "level": "model_checking",
+        "technique": "explicit-state BFS over configuration-edit/read "
+                     "histories on a long-lived dataset vs. a freshly "
+                     "constructed dataset (differential oracle)",
+        "text": "From each documented emodulus scenario (A, B, C, a mixed "
+                "one; with/without temp feature; stored or computed "
+                "area_um; through a hierarchy child) and three crosstalk "
+                "scenarios, all histories (depth 3 quick / 4 thorough) of "
+                "set/change/delete of [calculation]/[imaging]/[setup] keys, "
+                "feature reads, availability tests and temporary-feature "
+                "assignment are executed; in every state availability and "
+                "value/exception of every watched feature equal those of a "
+                "fresh dataset, availability matches readability, and "
+                "emodulus equals a direct get_emodulus call chosen by the "
+                "documented precedence. Plus all 192 present/absent key "
+                "combinations.",
+        "note": "watched: emodulus, time, area_um, fl1-3_max_ctc, a "
+                "temporary feature; 30-node registered LUTs; two deliberate "
+                "dclab behaviours are listed as open known findings",
+    },
+    "C19": {
+        "engine": "E1-explore",
+        "level": "model_checking",
+        "technique": "explicit-state BFS over seek/tell/read histories on "
+                     "the real HTTPFile over an in-memory RFC 7233 host",
+        "text": "For 7 resource lengths around multiples of the chunk size "
+                "x chunk sizes {4,5,8} x keep_chunks {1,2,3} x server "
+                "flavours, every seek(set/cur/end)/tell/read(n) history to "
+                "depth 3 (quick) / 4 (thorough), reads beyond EOF as "
+                "deviations: returned bytes, position and the cache bound "
+                "are checked in every state. Generated .rtdc files served "
+                "by the fake host: RTDC_HTTP equals RTDC_HDF5 (features, "
+                "metadata, logs, tables) for chunk sizes incl. a divisor of "
+                "the file length.",
+        "note": "requests/sockets replaced by an in-memory host (harness "
+                "process only); read(n) with n >= 0",
     },
 }
